@@ -308,9 +308,39 @@ def runOps (fields : List String) : String × String :=
               ok && go depth curNow filteredNow ops os
         go 0 "0,0,0" false ops fobs
       let r4 := if tilingOK then [] else ["C04: an unfiltered lexer skipped text: the delivered token does not start at the cursor"]
+      -- C04 (parse span, seen through histories): after each token delivered by `next` / `next_if`
+      -- the parse span runs from the start of the first token delivered since the parse began
+      -- (the start of the history or the last sub-lex mark) to the end of the last one.  An
+      -- `advance_to` / `advance_up_to` consumes tokens the observation does not show: tracking stops
+      -- until the next sub-lex mark.
+      let parseSpanOK :=
+        let rec goPS (depth : Nat) (first : Option Pos) (known : Bool) : List Op → List String → Bool
+          | [], _ => true
+          | _, [] => true
+          | op :: ops, o :: os =>
+            match op with
+            | .forkBegin => goPS (depth + 1) first known ops os
+            | .forkEnd => goPS (depth - 1) first known ops os
+            | _ =>
+              if depth > 0 then goPS depth first known ops os else
+              let out := (o.splitOn "@").headD ""
+              let st := ((o.splitOn "@").getD 1 "").splitOn "/"
+              match op with
+              | .startSublex | .intoSublexer => goPS depth none true ops os
+              | .advanceTo _ | .advanceUpTo _ => goPS depth first false ops os
+              | .next | .nextIf _ =>
+                if out == "none" || !known then goPS depth first known ops os else
+                let ts := parseSpan (st.headD "")
+                let ps := parseSpan (st.getD 1 "")
+                let f := first.getD ts.s
+                -- (start compared by byte offset: a metrics builder in between re-measures line and column)
+                (ps.s.byte == f.byte && ps.e == ts.e) && goPS depth (some f) known ops os
+              | _ => goPS depth first known ops os
+        goPS 0 none true ops fobs
+      let r6 := if parseSpanOK then [] else ["C04: after a delivered token the parse span does not run from the first delivered token to the last"]
       -- C01: the lexer's `Display` was formatted after every op (last `;` item of a state observation)
       let r5 := if (impl.splitOn ";panic").length > 1 then ["C01: formatting the lexer (Display) panicked"] else []
-      let reasons := r1 ++ r2 ++ r3 ++ r4 ++ r5
+      let reasons := r1 ++ r2 ++ r3 ++ r4 ++ r5 ++ r6
       (mo, if reasons.isEmpty then "ok" else "FAIL " ++ "; ".intercalate reasons)
     | _ => (mo, "FAIL unparsable observation")
   | _ => ("?", "FAIL bad case line")
